@@ -348,7 +348,9 @@ func (s *streamGRPC) decompress(dst *bytes.Buffer, b []byte) error {
 	if err != nil {
 		return err
 	}
-	if _, err := dst.ReadFrom(r); err != nil {
+	// Read at most one byte past the limit, the caller checks the size.
+	limit := int64(s.opts.maxReceiveMessageSize) + 1
+	if _, err := dst.ReadFrom(io.LimitReader(r, limit)); err != nil {
 		return err
 	}
 	return nil
@@ -409,6 +411,10 @@ func (s *streamGRPC) RecvMsg(m interface{}) error {
 		if err := s.decompress(buf, b); err != nil {
 			bufPool.Put(buf)
 			return err
+		}
+		if buf.Len() > s.opts.maxReceiveMessageSize {
+			bufPool.Put(buf)
+			return fmt.Errorf("grpc: received message after decompression larger than max (%d vs. %d)", buf.Len(), s.opts.maxReceiveMessageSize)
 		}
 		size = uint32(buf.Len())
 		if int(size) > cap(b) {
